@@ -40,6 +40,9 @@ Record scase := {
   s_open : sobs            (* Environment.Schema of EvalEnvironment: only compared with the model's (sch_mismatch) *)
 }.
 
+(* fuel of this file's own schema walks (the model's helpers compute theirs: Chain.sch_depth) *)
+Definition corr_sch_fuel : nat := 64.
+
 Definition vfuel : nat := C08.fuel.
 Definition valid (D : defs) (s : schema) (v : json) : option bool := vspec C08.re_lit D vfuel s v.
 
@@ -571,7 +574,7 @@ Definition model_root_sch (once : bool) (W : Eval.world) (name : string) (d : Ev
              | [] => Chain.ScNever
              | _ :: [] => Chain.top_sch c
              | _ :: rest => if once then Chain.top_sch c
-                            else Chain.merged_schema Chain.sch_fuel (Some (Chain.top_sch rest)) (Chain.top_sch c)
+                            else Chain.merged_schema (Chain.sch_depth (Chain.top_sch c)) (Some (Chain.top_sch rest)) (Chain.top_sch c)
              end).
 
 (* ---- the class in which the model's schema bookkeeping is NOT faithful: schemas that depend on the merge HISTORY ----------
@@ -640,7 +643,7 @@ Fixpoint chain_absorbs (c : list Chain.layer) : bool :=
   | l :: rest =>
       match rest with
       | [] => false
-      | _ :: _ => sch_absorbs Chain.sch_fuel (Chain.top_sch rest) (Chain.l_sch l) || sch_unstable Chain.sch_fuel (Chain.top_sch c)
+      | _ :: _ => sch_absorbs corr_sch_fuel (Chain.top_sch rest) (Chain.l_sch l) || sch_unstable corr_sch_fuel (Chain.top_sch c)
       end
       || chain_absorbs rest
   end.
@@ -724,7 +727,7 @@ Definition cuts_of (W : Eval.world) (name : string) (d : Eval.envdef) : list (li
                let '(c, s) := Eval.eval_env W' EvalWire.model_fuel "" name d Eval.st0 in
                if Eval.oof s || EvalWire.empty_def d then []
                else match model_root_sch false W' name d with
-                    | Some rep => cut_paths Chain.sch_fuel rep c
+                    | Some rep => cut_paths corr_sch_fuel rep c
                     | None => []
                     end in
   one false ++ one true.
